@@ -50,3 +50,16 @@ Fixpoint slist_eqb (a b : list string) : bool :=
   | x :: a', y :: b' => String.eqb x y && slist_eqb a' b'
   | _, _ => false
   end.
+
+(* the other recurring pattern: a child compiler's table is merged into the parent's with
+   `for (name, idx) in &child.global_indices { if !parent.contains_key(name) { parent.insert(name, idx) } }`
+   (finalize_typed_function, finalize_untyped_function, finalize_lambda, compile_typed_lambda_*;
+   Heap::merge does the same with `entry(hash).or_insert`).  A table is its lookup function. *)
+Definition table := string -> option nat.
+Definition merge_step (t : table) (e : string * nat) : table :=
+  match t (fst e) with
+  | Some _ => t
+  | None => fun k => if String.eqb k (fst e) then Some (snd e) else t k
+  end.
+Definition merge_if_absent (parent : table) (child : list (string * nat)) : table :=
+  fold_left merge_step child parent.
